@@ -330,6 +330,9 @@ class Scene:
             self._store_aircraft_properties()
             self._perform_geometry_and_atmos_calcs()
 
+        # Results stored for the previous set of aircraft are no longer current
+        self._solved = False
+
 
     def _initialize_storage_arrays(self):
         # Initialize arrays
